@@ -1,28 +1,36 @@
-"""Per-property configuration of the generic check flow (lib/vlib.py).
+"""Per-property configuration of the generic check flow (lib/vlib.py), one JSON file per
+property under lib/propcfg/Cxx.json:
 
-verdicts: code printed by Run/RunCxx.check_all -> (finding key, text, kind)
-  kind "spec":  the implementation's observation contradicts the Spec (a concrete failing input)
-  kind "model": model and implementation differ on something the Spec does not fix
-                (correspondence broken; reported as no-failing-input-found unless a spec
-                violation is found as well)
-  kind "skip":  case not comparable (counted only)
+  verdicts: {"<code printed by Run/RunCxx.check_all>": [finding key | null, text, kind]}
+     kind "spec":  the implementation's observation contradicts the Spec (a concrete failing input)
+     kind "model": model and implementation differ on something the Spec does not fix
+                   (correspondence broken; reported as no-failing-input-found unless a spec
+                   violation is found as well)
+     kind "skip":  case not comparable (counted only)
+  trusted:      trusted-base entries specific to the property (modelled-not-verified parts ...)
+  assumptions:  what the check assumes
+  manifest:     {text, note, technique, design_ref} for MANIFEST.json (bin/mkmanifest)
+  harness_timeout (optional, seconds)
 """
+import glob
+import json
+import os
 
 COMMON_TRUST = [
     "correspondence harness /verif/harness (Go, mine): generators, canonicalisation, recover/time-out wrappers",
     "driver /verif/bin/check + lib/vlib.py (Python, mine)",
 ]
 
-PROPS = {
-    "C14": dict(
-        verdicts={
-            1: ("interp-output", "the string the implementation returned differs from the single-pass Spec result", "spec"),
-            2: ("interp-evaluations", "the implementation evaluated the counted expression a different number of times than the literal contains it", "spec"),
-            3: (None, "a code evaluated by the model is missing from the evaluator table", "skip"),
-        },
-        trusted=COMMON_TRUST + [
-            "modelled, not verified: the evaluator (parse+validate+eval+fmt.Sprint of one code) is a Section variable in all theorems and a finite table measured on the implementation in the correspondence; escape processing is taken from the lexer (Token.Val)",
-        ],
-        assumptions=["a string literal is evaluated by stringValueRuntime.Eval only (the harness goes through the public Parse/Validate/Eval API)"],
-    ),
-}
+
+def load():
+    res = {}
+    d = os.path.join(os.path.dirname(os.path.abspath(__file__)), "propcfg")
+    for f in sorted(glob.glob(os.path.join(d, "C*.json"))):
+        cfg = json.load(open(f))
+        cfg["verdicts"] = {int(k): tuple(v) for k, v in cfg.get("verdicts", {}).items()}
+        cfg["trusted"] = COMMON_TRUST + cfg.get("trusted", [])
+        res[os.path.basename(f)[:-5]] = cfg
+    return res
+
+
+PROPS = load()
